@@ -204,6 +204,8 @@ pub fn run(ctx: &Ctx, reject_mode: bool) -> Result<Evidence, String> {
     corpus.extend(gen::syntax_inside_strings());
     corpus.extend(gen::long_number_literal_queries());
     corpus.extend(gen::nonsingular_in_value_position());
+    corpus.extend(gen::function_results_as_arguments());
+    corpus.extend(gen::blanks_inside_numbers());
     for t in gen::composition_queries() {
         let ast = match analyze(&t).ast {
             Some(a) => a,
